@@ -156,6 +156,8 @@ static const uint32_t tp_event_to_ep_map[] = {
     TPDATA_FLAGS_SET(__u64, __ev, __fl);				\
 }
 #define TPDATA_F_DISABLED		(((uint64_t)1) << 63) /* Make sure that disabled event never call cb func. */
+#define TPDATA_F_ADDED			(((uint64_t)1) << 62) /* Read/write: is in epoll (persistent read have all other bits zero). */
+#define TPDATA_F_ABSTIME		(((uint64_t)1) << 61) /* Timer: timerfd was created with CLOCK_REALTIME. */
 
 #endif /* Linux specific code. */
 
@@ -678,6 +680,15 @@ err_out_timer:
 		}
 
 		/* TP_CTL_ADD, TP_CTL_ENABLE */
+		if (-1 != tfd &&
+		    (0 != (TPDATA_F_ABSTIME & tp_udata->tpdata)) !=
+		    (0 != (TP_FF_T_ABSTIME & ev->fflags))) {
+			/* Created for other clock: absolute time on monotonic
+			 * clock never come. Re create. */
+			close(tfd); /* No need to epoll_ctl(EPOLL_CTL_DEL). */
+			tp_udata->tpdata = 0;
+			tfd = -1;
+		}
 		if (-1 == tfd) { /* Create timer, if needed. */
 			tfd = timerfd_create(
 			    ((0 != (TP_FF_T_ABSTIME & ev->fflags)) ? CLOCK_REALTIME : CLOCK_MONOTONIC),
@@ -688,7 +699,9 @@ err_out_timer:
 				return (errno);
 			}
 			TPDATA_TFD_SET(tp_udata->tpdata, tfd);
-			TPDATA_EV_FL_SET(tp_udata->tpdata, ev->event, ev->flags); /* Remember original event and flags. */
+			if (0 != (TP_FF_T_ABSTIME & ev->fflags)) {
+				tp_udata->tpdata |= TPDATA_F_ABSTIME;
+			}
 			/* Add to epoll. */
 			epev.events |= EPOLLIN; /* Not set EPOLLONESHOT, use timer control. */
 			if (0 != epoll_ctl((int)tp_udata->tpt->io_fd,
@@ -698,6 +711,9 @@ err_out_timer:
 			}
 		}
 
+		/* Remember event and flags of this (not only first) call:
+		 * loop act on them. */
+		TPDATA_EV_FL_SET(tp_udata->tpdata, ev->event, ev->flags);
 		tp_udata->tpdata &= ~TPDATA_F_DISABLED;
 		switch ((TP_FF_T_TM_MASK & ev->fflags)) {
 		case TP_FF_T_SEC:
@@ -717,7 +733,8 @@ err_out_timer:
 			new_tmr.it_value.tv_nsec = (ev->data % 1000000000ul);
 			break;
 		}
-		if (0 != ((TP_F_ONESHOT | TP_F_DISPATCH) & ev->flags)) { /* Onetime. */
+		if (0 != ((TP_F_ONESHOT | TP_F_DISPATCH) & ev->flags) ||
+		    0 != (TP_FF_T_ABSTIME & ev->fflags)) { /* Onetime / point in time is not a period. */
 			memset(&new_tmr.it_interval, 0x00, sizeof(struct timespec));
 		} else { /* Periodic. */
 			new_tmr.it_interval = new_tmr.it_value; /* memcpy(). */
@@ -772,6 +789,10 @@ err_out_proc:
 
 	/* Read/Write events. */
 	/* Single event. */
+	if ((TP_CTL_DEL == op || TP_CTL_DISABLE == op) &&
+	    (0 == (TPDATA_F_ADDED & tp_udata->tpdata) ||
+	     ev->event != TPDATA_EVENT_GET(tp_udata->tpdata)))
+		return (ENOENT); /* Not added / other event kind was added. */
 	if (TP_CTL_DEL == op) {
 		tp_udata->tpdata = 0;
 		if (0 == epoll_ctl((int)tp_udata->tpt->io_fd,
@@ -783,6 +804,7 @@ err_out_proc:
 	op_guess = ((0 == tp_udata->tpdata) ? EPOLL_CTL_ADD : EPOLL_CTL_MOD);
 	TPDATA_TFD_SET(tp_udata->tpdata, -1);
 	TPDATA_EV_FL_SET(tp_udata->tpdata, ev->event, ev->flags); /* Remember original event and flags. */
+	tp_udata->tpdata |= TPDATA_F_ADDED;
 	if (TP_CTL_DISABLE == op) { /* Disable event. */
 		tp_udata->tpdata |= TPDATA_F_DISABLED;
 		epev.events |= EPOLLET; /* Mark as level trig, to only once report HUP/ERR. */
@@ -796,7 +818,9 @@ err_out_proc:
 	switch (ev->event) {
 	case TP_EV_READ:
 		if (0 != (TP_FF_RW_LOWAT & ev->fflags)) {
-			lowat = ((0 == ev->data) ? 1 : ev->data); /* LOWAT can not be 0. */
+			/* LOWAT can not be 0, and is int for kernel. */
+			lowat = ((0 == ev->data) ? 1 :
+			    (uint32_t)MIN(ev->data, (uint64_t)INT32_MAX));
 			setsockopt((int)tp_udata->ident, SOL_SOCKET, SO_RCVLOWAT,
 			    &lowat, sizeof(uint32_t));
 		}
@@ -876,7 +900,8 @@ tpt_loop(tpt_p tpt) {
 		tpev_flags = TPDATA_FLAGS_GET(tp_udata->tpdata, ev.event);
 		ev.flags = 0;
 		ev.fflags = 0;
-		if (0 != (TP_F_DISPATCH & tpev_flags)) { /* Mark as disabled. */
+		if (0 != (TP_F_DISPATCH & tpev_flags) &&
+		    TP_EV_TIMER != ev.event) { /* Mark as disabled. */
 			tp_udata->tpdata |= TPDATA_F_DISABLED;
 		}
 
@@ -900,7 +925,8 @@ tpt_loop(tpt_p tpt) {
 				}
 			}
 			if (0 != (TP_F_ONESHOT & tpev_flags)) { /* Onetime. */
-				epoll_ctl((int)tpt->io_fd, EPOLL_CTL_DEL,
+				/* Not tpt->io_fd: event may be from pool virtual thread. */
+				epoll_ctl((int)tp_udata->tpt->io_fd, EPOLL_CTL_DEL,
 				    (int)tp_udata->ident, &epev);
 				tp_udata->tpdata = 0;
 			}
@@ -909,7 +935,12 @@ tpt_loop(tpt_p tpt) {
 			break;
 		case TP_EV_TIMER: /* Timer. */
 			tfd = TPDATA_TFD_GET(tp_udata->tpdata);
-			itm = read(tfd, &ev.data, sizeof(uint64_t));
+			if (((ssize_t)sizeof(uint64_t)) != read(tfd, &ev.data,
+			    sizeof(uint64_t)))
+				continue; /* Other thread take this expiration (pool virtual thread). */
+			if (0 != (TP_F_DISPATCH & tpev_flags)) { /* Mark as disabled. */
+				tp_udata->tpdata |= TPDATA_F_DISABLED;
+			}
 			if (0 != (TP_F_ONESHOT & tpev_flags)) { /* Onetime. */
 				close(tfd); /* No need to epoll_ctl(EPOLL_CTL_DEL). */
 				tp_udata->tpdata = 0;
@@ -1559,6 +1590,9 @@ tpt_ev_validate(int op, tp_event_p ev, tp_udata_p tp_udata) {
 #endif
 		if (0 != (~(TP_FF_T_MASK) & ev->fflags))
 			return (EINVAL); /* Invalid fflags: some unknown bits is set. */
+		if (0 == ev->data &&
+		    (TP_CTL_ADD == op || TP_CTL_ENABLE == op))
+			return (EINVAL); /* Zero time: timer will never fire. */
 		break;
 	case TP_EV_PROC:
 #if defined(TP_F_EDGE)
@@ -1567,6 +1601,8 @@ tpt_ev_validate(int op, tp_event_p ev, tp_udata_p tp_udata) {
 #endif
 		if (0 != (~(TP_FF_P_MASK) & ev->fflags))
 			return (EINVAL); /* Invalid fflags: some unknown bits is set. */
+		if (INT32_MAX < tp_udata->ident)
+			return (EINVAL); /* Not a pid_t: other process will be watched. */
 		break;
 	default:
 		return (EINVAL); /* Bad event. */
